@@ -62,7 +62,10 @@ PROPS['C16'] = {
                   'no other leaf value verifies (soundness lemma, H injective). Unbounded in tree size; this is the statement no finite test run gives.',
     'level_note': 'SHA-2 uninterpreted; concat_and_hash, vec_compare, to_vec, ByteBuf assumed by contract; extraction rules X2 (step_by) and X4 (alpha-renaming) applied; from_leaves and file-level BMFF callers outside the unit.',
     'technique': 'Verus contracts (requires/ensures/loop invariants/decreases) + inductive lemmas on mechanically extracted real functions',
-    'parts': [V('verus:merkle', 'merkle')],
+    'parts': [V('verus:merkle', 'merkle'),
+              B('native:merkle_replay', 'sdk', [{'name': 'c16_generated_proofs_verify_natively'}], tier='thorough',
+                functions=[('sdk/src/utils/merkle.rs', 'from_leaves')],
+                bounds='thorough tier only: leaf counts 1..=300 x every row x every index on the real code (replay driver / differential check of the assumed callee contracts)')],
     'trusted_base': TB_VERUS + [
         'SHA-2 is an uninterpreted function H(alg, bytes); leaf soundness additionally assumes H injective',
         'concat_and_hash(alg, l, Some(r)) == H(alg, l ++ r) (external_body; the real body is hash_by_alg over the concatenation)',
@@ -258,4 +261,39 @@ PROPS['C04'] = {
     'trusted_base': TB_KANI,
     'rule': 'evaluations = CBMC checks decided in bounded harnesses over symbolic code selections',
     'not_covered': ['Reader::validation_state fallback for legacy results', 'how status codes are produced (validators)'],
+}
+
+
+T = lambda n, tier='quick': {'name': n, 'tier': tier}
+
+PROPS['C17'] = {
+    'level': 'exploration',
+    'level_text': 'Bounded stand-in (not a proof): the contract "the bytes fed into leaves and remainder are exactly the concatenated payload minus the 8-byte header; every leaf has the '
+                  'fixed size; remainder < fixed size" is evaluated on the real MerkleAccumulator::add_merkle_leaf for EVERY 2- and 3-way (thorough: 4-way) split of a payload, '
+                  'fixed_size in {None,2,3,5}, large_size in {false,true}. The function uses HashMap/BTreeMap entry APIs: outside Verus, and CBMC did not finish (> 20 min).',
+    'level_note': 'bounded: payload 20 (28) bytes, small leaf sizes (the size arithmetic is generic in fixed_size); Builder remainder flush and "reads back Valid" not covered.',
+    'technique': TECH_B,
+    'parts': [B('native:add_merkle_leaf', 'sdk', [T('c17_add_merkle_leaf_all_splits')], functions=[('sdk/src/utils/merkle.rs', 'add_merkle_leaf')],
+                bounds='payload 20 bytes (thorough 28), every 2/3-way (thorough 4-way) split, fixed_size in {None,2,3,5}, large_size in {false,true}')],
+    'trusted_base': ['rustc', 'SHA-256 of the real crate used as the oracle hash'],
+    'rule': 'one evaluation = one (split, fixed_size, large_size) tuple run through the real function and compared with the contract; non-trivial = first cut strictly inside the payload',
+    'not_covered': ['Builder::update_hash_from_stream remainder flush', 'BmffHash verification of the recorded leaves (validate_merkle_maps_mdat_boxes)', 'end-to-end Valid read-back'],
+}
+
+PROPS['C13'] = {
+    'level': 'model_checking',
+    'level_text': 'Bounded. Kani on the real hash_stream_by_alg_with_progress_impl (hasher replaced by a byte log): inclusion mode with one range UNCONSTRAINED in u64 x u64 over <= 3 bytes '
+                  '(exactness, rejection past the end, no overflow, progress discipline), no exclusion-mode harness is possible (CBMC exhausts memory on range_set). '
+                  'Exclusion-mode exactness and BMFF markers: bounded-exhaustive native stand-in (range_set/SmallVec is beyond CBMC), incl. read-buffer sizes 1.. (worker-thread pipelining).',
+    'level_note': 'threads/channels stubbed out under Kani (paths through them cut); data <= 3 bytes under Kani, <= 5 (7) bytes natively; two recorded findings (marker corner cases) in KNOWN_FINDINGS.txt.',
+    'technique': TECH_K + ' (bounded) + ' + TECH_B,
+    'parts': [K('kani:range_hash', 'sdk', [H('c13_no_range_hashes_everything', 'bounded', '2 data bytes'),
+                                           H('c13_inclusion_one_range', 'bounded', '<= 3 data bytes; range start and length unconstrained u64')],
+                kind='bounded', timeout=1800, unwindset=['memcmp.0:8'], functions=[('sdk/src/utils/hash_utils.rs', 'hash_stream_by_alg_with_progress_impl')],
+                stubs=['Hasher::update -> byte log', 'Hasher::finalize -> constant', 'thread spawn / mpsc channel / send / recv -> assume(false)', 'catch_unwind -> call']),
+              B('native:range_hash_exact', 'sdk', [T('c13_range_hash_exact_small_domain')], functions=[('sdk/src/utils/hash_utils.rs', 'hash_stream_by_alg_with_progress_impl')],
+                bounds='data length 0..=5 (7), pairs of ranges with start,len in 0..=len+1 plus {2^32,2^63,2^64-1}, optional marker(s), both modes, buffer sizes {1,2^20} (thorough {1,2,3,2^20}; 3 algorithms)')],
+    'trusted_base': TB_KANI + ['the reference function `reference()` in kani/hash_utils.rs (the statement, executable)'],
+    'rule': 'evaluations = CBMC checks decided + native (data, ranges, mode, alg, buffer) tuples compared with the reference digest; non-trivial = at least one non-empty in-range range',
+    'not_covered': ['schedules quantifier beyond what native threads happen to do', 'streams longer than 7 bytes', 'more than 3 ranges'],
 }
